@@ -185,7 +185,9 @@ fn main() -> Result<()> {
                 Some((&FifoEntry::WrapAroundMarker(marker), timestamps)) => {
                     (Some(marker), timestamps)
                 }
-                Some((_, timestamps)) => (None, timestamps),
+                // The last chunk does not end in a marker; every entry of it
+                // is a timestamp.
+                Some(_) => (None, chunk),
                 _ => unreachable!(),
             };
             for &tsc in timestamps {
